@@ -94,3 +94,116 @@ MUTANTS = [
          new="    a1 = put_array_in_2d_array(values, shifts)\n    if jtype == 'add':\n        return a1 + a0 * (np.max(shifts) < len(values) + 3)\n",
          why="boundary: original dropped when the largest shift reaches len(values)+3"),
 ]
+
+# ---- window mutants (mid-range brief): a code path that only exists above an arbitrary size / product threshold -----------
+_VEL = "    velocity = cumulative_trapezoid(acc_series, dx=asig.dt, initial=0, axis=1)\n"
+_BLOCKED_VEL = '''    if acc_series.shape[1] > 20000:  # long records: integrate in column blocks to bound the temporaries
+        velocity = np.zeros_like(acc_series)
+        carry = 0.0
+        blk = 7000
+        for i0 in range(0, acc_series.shape[1], blk):
+            seg = acc_series[:, max(i0 - 1, 0): i0 + blk]
+            part = cumulative_trapezoid(seg, dx=asig.dt, initial=0, axis=1)
+            if i0 > 0:
+                part = part[:, 1:]
+            velocity[:, i0:i0 + blk] = part + carry
+            carry = %s
+    else:
+        velocity = cumulative_trapezoid(acc_series, dx=asig.dt, initial=0, axis=1)
+'''
+MUTANTS += [
+    dict(id="c19-win-energy-colblock-carry-20000", prop="C19", file="eqsig/surface.py", old=_VEL,
+         new=_BLOCKED_VEL % "part[:, -1:]",
+         why="window: records + delay > 20000 samples integrated in blocks of 7000; the carry forgets the earlier blocks (wrong from the third block on)"),
+    dict(id="c19-win-energy-colblock-correct", prop="C19", file="eqsig/surface.py", old=_VEL,
+         new=_BLOCKED_VEL % "velocity[:, min(i0 + blk, acc_series.shape[1]) - 1][:, np.newaxis]", expect="survive",
+         why="behaviour-preserving: the same blocked integration with the right carry (rounding differs within the bound)"),
+    dict(id="c19-win-motions-rowblock-tail-700", prop="C19", file="eqsig/surface.py",
+         old="    acc_series = trim_to_length(acc_series,",
+         new="    if len(travel_times) > 700:  # row blocks of 256; the last partial block is evaluated with whole-sample delays\n"
+             "        r0 = 256 * (len(travel_times) // 256)\n"
+             "        tail = np.interp(np.floor(dshifted[r0:]), np.arange(asig.npts), asig.values, left=0, right=0)\n"
+             "        tail = tail * (down_red[r0:, np.newaxis] if hasattr(down_red, '__len__') else down_red)\n"
+             "        upw = up_wave[r0:] if up_wave.ndim == 2 else up_wave\n"
+             "        acc_series[r0:] = (-tail if nodal else tail) + upw\n"
+             "    acc_series = trim_to_length(acc_series,",
+         why="window: more than 700 travel times in get_time_shift_motions - the last partial block of 256 rows gets truncated delays"),
+    dict(id="c19-win-energy-float32-product-3e5", prop="C19", file="eqsig/surface.py",
+         old="    if hasattr(up_red, '__len__'):\n        up_wave = up_wave[np.newaxis, :] * up_red[:, np.newaxis]  # 1d\n        down_waves *= down_red[:, np.newaxis]\n    else:\n        up_wave = up_wave * up_red  # 1d  # TODO: may need to increase dimensions here\n        down_waves *= down_red\n    if nodal:\n        acc_series = - down_waves + up_wave\n    else:\n        acc_series = down_waves + up_wave\n    velocity",
+         new="    if down_waves.size > 300000:  # memory saving for large batches\n        down_waves = down_waves.astype(np.float32)\n    if hasattr(up_red, '__len__'):\n        up_wave = up_wave[np.newaxis, :] * up_red[:, np.newaxis]  # 1d\n        down_waves *= down_red[:, np.newaxis]\n    else:\n        up_wave = up_wave * up_red  # 1d  # TODO: may need to increase dimensions here\n        down_waves *= down_red\n    if nodal:\n        acc_series = - down_waves + up_wave\n    else:\n        acc_series = down_waves + up_wave\n    velocity",
+         why="window: rows x samples > 3e5 - the delayed waves are kept in single precision (6e-8 relative)"),
+    dict(id="c19-win-trim-seam-5000", prop="C19", file="eqsig/surface.py",
+         old="            outs[i, sis[i]:] = values[i, : npts - sis[i]]  # zero padded\n",
+         new="            if npts > 5000:  # copy in two halves\n"
+             "                h = (npts - sis[i]) // 2\n"
+             "                outs[i, sis[i]: sis[i] + h] = values[i, :h]\n"
+             "                outs[i, sis[i] + h + 1:] = values[i, h + 1: npts - sis[i]]\n"
+             "            else:\n"
+             "                outs[i, sis[i]:] = values[i, : npts - sis[i]]  # zero padded\n",
+         why="window: trim/start on records > 5000 samples copied in two halves; the sample at the seam is left zero"),
+    dict(id="c19-win-cum-block-carry-70000", prop="C19", file="eqsig/surface.py",
+         old="    return np.cumsum(np.abs(diff), axis=-1)\n",
+         new="    if diff.shape[-1] > 70000:\n"
+             "        out = np.empty_like(diff)\n"
+             "        blk = 16384\n"
+             "        carry = 0.0\n"
+             "        for i0 in range(0, diff.shape[-1], blk):\n"
+             "            part = np.cumsum(np.abs(diff[..., i0:i0 + blk]), axis=-1)\n"
+             "            out[..., i0:i0 + blk] = part + carry\n"
+             "            carry = part[..., -1:]\n"
+             "        return out\n"
+             "    return np.cumsum(np.abs(diff), axis=-1)\n",
+         why="window: cumulative series longer than 70000 samples summed in blocks of 16384 with a carry that forgets the earlier blocks"),
+    dict(id="c19-win-put-row-skipped-100", prop="C19", file="eqsig/fns/time_shift.py",
+         old="    for i, j in enumerate(shifts):\n        out[i, start_extras + j:start_extras + npts + j] = values\n",
+         new="    for i, j in enumerate(shifts):\n        if len(shifts) > 100 and i % 128 == 127:\n            continue\n        out[i, start_extras + j:start_extras + npts + j] = values\n",
+         why="window: more than 100 shift rows - the last row of every block of 128 is left empty"),
+    dict(id="c19-win-join-float32-250000", prop="C19", file="eqsig/fns/time_shift.py",
+         old="    a1 = put_array_in_2d_array(values, shifts)\n",
+         new="    a1 = put_array_in_2d_array(values, shifts)\n    if a1.size > 250000:\n        a1 = a1.astype(np.float32)\n",
+         why="window: joined matrix above 2.5e5 elements built in single precision"),
+    dict(id="c19-win-stale-upwave-cache-3000", prop="C19", file="eqsig/surface.py",
+         old="    max_shift = int(np.max(shifts))\n    up_wave = np.pad(asig.values, (0, max_shift), mode='constant', constant_values=0)\n    dshifted = np.arange(asig.npts + max_shift)[np.newaxis, :] - shifts[:, np.newaxis]  # TODO: not needed if shifts is scalar\n    down_waves = np.interp(dshifted, np.arange(asig.npts), asig.values, left=0, right=0)\n    if hasattr(up_red, '__len__'):\n        up_wave = up_wave[np.newaxis, :] * up_red[:, np.newaxis]  # 1d\n        down_waves *= down_red[:, np.newaxis]\n    else:\n        up_wave = up_wave * up_red  # 1d  # TODO: may need to increase dimensions here\n        down_waves *= down_red\n    if nodal:\n        acc_series = - down_waves + up_wave\n    else:\n        acc_series = down_waves + up_wave\n    velocity",
+         new="    max_shift = int(np.max(shifts))\n    vals = asig.values\n    if 3000 <= asig.npts <= 60000:  # mid-size records: keep the float copy on the signal object\n        vals = getattr(asig, '_se_vals', None)\n        if vals is None or len(vals) != asig.npts:\n            vals = np.array(asig.values, dtype=float)\n            asig._se_vals = vals\n    up_wave = np.pad(vals, (0, max_shift), mode='constant', constant_values=0)\n    dshifted = np.arange(asig.npts + max_shift)[np.newaxis, :] - shifts[:, np.newaxis]  # TODO: not needed if shifts is scalar\n    down_waves = np.interp(dshifted, np.arange(asig.npts), asig.values, left=0, right=0)\n    if hasattr(up_red, '__len__'):\n        up_wave = up_wave[np.newaxis, :] * up_red[:, np.newaxis]  # 1d\n        down_waves *= down_red[:, np.newaxis]\n    else:\n        up_wave = up_wave * up_red  # 1d  # TODO: may need to increase dimensions here\n        down_waves *= down_red\n    if nodal:\n        acc_series = - down_waves + up_wave\n    else:\n        acc_series = down_waves + up_wave\n    velocity",
+         why="window: cache kept only for records of 3000..60000 samples, stale after reset_values with a record of the same length"),
+    dict(id="c19-win-rowblock-correct-64", prop="C19", file="eqsig/surface.py", expect="survive",
+         old="    e = 0.5 * velocity * np.abs(velocity)\n    e = trim_to_length",
+         new="    e = np.empty_like(velocity)\n    for r0 in range(0, velocity.shape[0], 64):\n        e[r0:r0 + 64] = 0.5 * velocity[r0:r0 + 64] * np.abs(velocity[r0:r0 + 64])\n    e = trim_to_length",
+         why="behaviour-preserving: energy evaluated in row blocks of 64 (correct seams)"),
+    # ---- survivors of the audit (notes/audit/C19.md section 5)
+    dict(id="c19-audit-A-delay-capped-2n", prop="C19", file="eqsig/surface.py", count=2,
+         old="    max_shift = int(np.max(shifts))\n",
+         new="    max_shift = min(int(np.max(shifts)), 2 * asig.npts - 1)\n",
+         why="audit A: delay capped at twice the record (travel time >= record duration loses length / reflected wave)"),
+    dict(id="c19-audit-B-row-63-mod-64", prop="C19", file="eqsig/surface.py",
+         old="    e = 0.5 * velocity * np.abs(velocity)\n    e = trim_to_length",
+         new="    e = 0.5 * velocity * np.abs(velocity)\n    if e.shape[0] > 64:\n        e[63::64] = 0.0\n    e = trim_to_length",
+         why="audit B: last row of every block of 64 rows left unfilled in batches of more than 64 travel times"),
+    dict(id="c19-audit-C1-trim-float32-4096", prop="C19", file="eqsig/surface.py",
+         old="    outs = np.zeros((len(surf_to_depth_shifts), npts))\n",
+         new="    outs = np.zeros((len(surf_to_depth_shifts), npts), dtype=np.float32 if npts > 4096 else float)\n",
+         why="audit C: trimmed output in single precision for records longer than 4096 samples"),
+    dict(id="c19-audit-C2-motions-floor-8", prop="C19", file="eqsig/surface.py",
+         old="    shifts = 2 * travel_times / asig.dt\n    max_shift = int(np.max(shifts))\n    up_wave = np.pad(asig.values, (0, max_shift), mode='constant', constant_values=0)\n    dshifted = np.arange(asig.npts + max_shift)[np.newaxis, :] - shifts[:, np.newaxis]  # TODO: not needed if shifts is scalar\n    down_waves = np.interp(dshifted, np.arange(asig.npts), asig.values, left=0, right=0)\n    if hasattr(up_red, '__len__'):\n        up_wave = up_wave[np.newaxis, :] * up_red[:, np.newaxis]  # 1d\n        down_waves *= down_red[:, np.newaxis]\n    else:\n        up_wave = up_wave * up_red  # 1d  # TODO: may need to increase dimensions here\n        down_waves *= down_red\n    if nodal:\n        acc_series = - down_waves + up_wave\n    else:\n        acc_series = down_waves + up_wave\n    acc_series = trim",
+         new="    shifts = 2 * travel_times / asig.dt\n    if len(shifts) > 8:\n        shifts = np.floor(shifts)\n    max_shift = int(np.max(shifts))\n    up_wave = np.pad(asig.values, (0, max_shift), mode='constant', constant_values=0)\n    dshifted = np.arange(asig.npts + max_shift)[np.newaxis, :] - shifts[:, np.newaxis]  # TODO: not needed if shifts is scalar\n    down_waves = np.interp(dshifted, np.arange(asig.npts), asig.values, left=0, right=0)\n    if hasattr(up_red, '__len__'):\n        up_wave = up_wave[np.newaxis, :] * up_red[:, np.newaxis]  # 1d\n        down_waves *= down_red[:, np.newaxis]\n    else:\n        up_wave = up_wave * up_red  # 1d  # TODO: may need to increase dimensions here\n        down_waves *= down_red\n    if nodal:\n        acc_series = - down_waves + up_wave\n    else:\n        acc_series = down_waves + up_wave\n    acc_series = trim",
+         why="audit C: get_time_shift_motions truncates fractional delays for batches of more than 8 travel times"),
+    dict(id="c19-audit-D-reductions-clipped", prop="C19", file="eqsig/surface.py", count=2,
+         old="    shifts = 2 * travel_times / asig.dt\n",
+         new="    shifts = 2 * travel_times / asig.dt\n    up_red = np.clip(up_red, 0.0, 1.0)\n    down_red = np.clip(down_red, 0.0, 1.0)\n",
+         why="audit D: reduction factors clipped to [0, 1] ('a reduction cannot amplify')"),
+    dict(id="c19-cum-not-scaled", prop="C19", file="eqsig/surface.py",
+         old="    return np.cumsum(np.abs(diff), axis=-1)\n",
+         new="    return np.cumsum(np.abs(diff), axis=-1) / max(1.0, float(np.max(np.abs(energy))) ** 0.01)\n",
+         why="audit row 8: the cumulative series does not scale with alpha^2 (and is not the running sum)"),
+    dict(id="c19-put-clip-None-as-both", prop="C19", file="eqsig/fns/time_shift.py",
+         old="    if clip in ['end', 'both'] and end_extras > 0:\n",
+         new="    if clip is None:\n        clip = 'both'\n    if clip in ['end', 'both'] and end_extras > 0:\n",
+         why="audit section 2: clip=None (documented 'str or none') never passed"),
+]
+# the statement says "integrating" (no quadrature named), leaves the rounding convention of the start shift and of the time
+# shifts open, and fixes no length for start-without-trim (brief_wave2_addendum item 2b): the mutants named below no longer break
+# anything the statement says and must now SURVIVE (false-alarm probes).  c19-depth-shift-round and c19-start-shift-ceil stay
+# defects: mixing floor with round / ceil moves a row by more than one sample away from (stt - tt_i)/dt.
+for _m in MUTANTS:
+    if _m["id"] in ("c19-trapz-to-rect", "c19-join-sig-round", "c19-start-no-extras", "c19-motions-maxshift"):
+        _m["expect"] = "survive"
